@@ -1107,3 +1107,13 @@ def oracle(lines, impl):
     if os.environ.get("C10_STATS"):
         print("[C10 oracle stats]", stats)
     return fails
+
+# --- deep theorems (C10Deep)
+PROOF_MODULES = PROOF_MODULES + ['Compute.Props.C10Deep', 'Compute.Lemmas.C10DeepTape', 'Compute.Lemmas.C10DeepDiff', 'Compute.Lemmas.C10DeepEval', 'Compute.Lemmas.C10DeepLM', 'Compute.Lemmas.C10DeepOpt']
+REQUIRED_THEOREMS = REQUIRED_THEOREMS + ['Cv.C10D.'+x for x in ['tape_gradient_correct','tape_gradient_correct_gradAt','tape_const_div_var_wrong','evalProg_sem','sEval_diff','tapeEval_laws','tapeEval_not_evalLaws','lm_descends_of_nonsingular','lm_descends_unconditional','damped_nonsingular','adam_follows_published_rule','sgd_follows_published_rule']]
+_np = [x for x in NOT_PROVED if not any(k in str(x) for k in ("chain rule", "EvalLaws", "exact LU", "LU is exact"))]
+NOT_PROVED = _np + [
+    "the tape chain-rule theorem (Props/C10Deep: the reverse sweep returns the Frechet derivative of the objective for every node kind of the catalogue) excludes `f64 / Var` nodes: for those the dependency records the weight -1/x instead of -c/x^2 (the open finding, itself proved as tape_const_div_var_wrong)",
+    "adam/sgd_follows_published_rule assume the objective's domain condition (non-zero divisors, non-zero bases of negative powers) at every point, not only along the trajectory",
+    "LM descent is unconditional for tau > 0, p >= 1 and no vanishing Jacobian column (damped normal matrix positive definite, LU solve exact by Props/C11Lu); LM convergence to the least-squares solution is still searched, not proved",
+]
